@@ -782,7 +782,11 @@ func (j *jdec) toInterface(d *Doc) Value {
 		return Iface{T: types.Typ[types.String], V: d.S}
 	case DNum:
 		if j.useNumber {
-			g.inconclusive("json.Number")
+			nt := g.run.P.NamedType("encoding/json", "Number")
+			if d.concrete() {
+				return Iface{T: nt, V: S(d.numLit())}
+			}
+			return Iface{T: nt, V: Str{Segs: []Seg{{Q: "numlit(" + d.String() + ")"}}}}
 		}
 		return Iface{T: types.Typ[types.Float64], V: j.numToFloat(d)}
 	case DArr:
